@@ -110,8 +110,8 @@ CLAIMED = {
     note="Trusted: clang front end; the task<->channel correspondence table is part of the spec (written from the statement); trxcon single-threaded; l1sched_reset_ts/add_ts contracts assumed; two CBCH enum values from a shim.",
     design="9/C11"),
  "C16": dict(
-    technique="contract-based deductive verification, modular: Field protocol with abstract callbacks, Uint/Int family (all classes, lengths 1..8, byte orders, signs, symbolic offset), Buf/Spare, BitField.enc_val/dec_val for every (width, offset), BitFieldSet for enumerated layouts, 64-bit bit-vector lemma for the general packing step, Envelope composition law with abstract members, Sequence with a loop invariant over an item-codec contract; PyVC + z3",
-    text="Each building block is proved against the interface contract for all values; composition (Envelope/Sequence) preserves the contract, so every definition built from the blocks inherits the laws by structural induction (the induction itself is the stated meta-argument). Bounded parts are labelled: BitFieldSet layouts (all of 1 octet; <= 3 fields for 2..4 octets), Envelope member counts 0..4, Sequence.to_bytes item counts 0..3.",
+    technique="contract-based deductive verification, modular: Field protocol with abstract callbacks, Uint/Int family (all classes, lengths 1..8, byte orders, signs, symbolic offset), Buf/Spare, BitField.enc_val/dec_val for every (width, offset), BitFieldSet for enumerated layouts, 64-bit bit-vector lemma for the general packing step, Envelope composition law for ANY number of abstract members (loop contract for decoding, comprehension contract for encoding, ghost prefix sums), Sequence for any number of items (loop invariant / comprehension contract over an item-codec contract); PyVC + z3",
+    text="Each building block is proved against the interface contract for all values; composition (Envelope/Sequence) preserves the contract, so every definition built from the blocks inherits the laws by structural induction (the induction itself is the stated meta-argument). Bounded parts are labelled: BitFieldSet layouts (all of 1 octet; <= 3 fields for 2..4 octets); the concrete-call-log instantiations of Envelope (0..4 members) and Sequence.to_bytes (0..3 items) remain as additional, labelled cases next to the unbounded contracts.",
     note="Trusted: PyVC builtin models (int.from_bytes/to_bytes and their inverse rewrite, bytes.join, slicing); pure callbacks; check() overrides outside the contract.",
     design="9/C16"),
 }
